@@ -60,4 +60,4 @@ import Bnum.Props.C01
 #print axioms Bnum.C01.i_saturating_abs
 #print axioms Bnum.C01.i_saturating_add_side
 #print axioms Bnum.C01.i_saturating_sub_side
-#print axioms Bnum.C01.u_checked_neg_rust
+#print axioms Bnum.C01.u_checked_neg_proj
